@@ -37,8 +37,24 @@ def in_domain(fn, a, b):
     if fn in ('exp',): return absbits(a) <= 0x6a800000
     if fn == 'exp2': return -0x6cb00000 <= sint(a) < 0x6c000000     # [-150, 128): 2^128 is beyond maxpos and the crate returns NaR there
     if fn in ('sinh', 'cosh'): return absbits(a) <= 0x69800000
-    if fn == 'powf': return 0x38000000 <= sint(a) <= 0x52000000 and 0x38000000 <= sint(b) <= 0x52000000
+    if fn == 'powf':
+        # every real pair whose result neither overflows nor underflows: |y * ln|x|| <= 80 (the crate computes exp(y*ln|x|) with
+        # its unguarded kernel; beyond exp's own documented range |t| <= 104 the result is unspecified, as for exp itself).
+        # Negative bases with integer exponents are in the domain (pow has explicit sign logic for them).
+        va = to_rat(N, ES, a); vb = to_rat(N, ES, b)
+        if va is None or vb is None or va == 0 or vb == 0: return True
+        t = abs(float(vb) * float(mpmath.log(abs(frmp(va)))))
+        return t <= 80.0
     return True
+
+def bound_for(fn, a, b):
+    """the crate's stated bound; for powf it is stated (and tested by the crate) on [0.5, 5) x [0.5, 5) only.  Outside, the error of
+    exp(y*ln|x|) is amplified (up to 63 encodings measured on the unchanged tree for x = 1 +- tiny, |y| ~ 2^22; inherent to the
+    method), so only GROSS correctness is demanded there: within 4096 encodings of the correctly rounded result, which still
+    catches a wrong sign, a wrong NaR decision or a broken special case (all 2^20+ encodings away)."""
+    if fn != 'powf': return BOUND[fn]
+    if 0x38000000 <= sint(a) <= 0x52000000 and 0x38000000 <= sint(b) <= 0x52000000: return BOUND[fn]
+    return 4096
 
 def correct(fn, a, b):
     va = to_rat(N, ES, a); vb = to_rat(N, ES, b) if b is not None else None
@@ -84,9 +100,13 @@ def correct(fn, a, b):
         s = va * va + vb * vb
         return R(mpmath.sqrt(frmp(s)))
     if fn == 'powf':
-        if va == 0: return None
-        if va < 0: return None
-        return E(1) if vb == 0 else R(mpmath.power(x, y))
+        if vb == 0 or va == 1: return E(1)
+        if va == 0: return E(0) if vb > 0 else NAR
+        if va < 0 and vb.denominator != 1: return NAR
+        m = R(mpmath.exp(mpmath.log(abs(x)) * y))
+        if m is None: return None
+        if va < 0 and vb.numerator % 2 == 1: return (-m) & 0xffffffff
+        return m
     return None
 
 def main():
@@ -105,16 +125,17 @@ def main():
             c = None
         if c is None: continue
         n += 1
+        bd = bound_for(fn, a, b)
         if res in ('PANIC', 'TIMEOUT'):
-            over += 1; print('ULP %s correct=%x ulp=inf bound=%d' % (l, c, BOUND[fn])); continue
+            over += 1; print('ULP %s correct=%x ulp=inf bound=%d' % (l, c, bd)); continue
         r = int(res, 16)
         if c == NAR or r == NAR:
             d = 0 if c == r else 1 << 40
         else:
             d = abs(sint(r) - sint(c))
         mx[fn] = max(mx.get(fn, 0), d if d < (1 << 40) else -1)
-        if d > BOUND[fn]:
-            over += 1; print('ULP %s correct=%x ulp=%s bound=%d' % (l, c, d if d < (1 << 40) else 'nar-mismatch', BOUND[fn]))
+        if d > bd:
+            over += 1; print('ULP %s correct=%x ulp=%s bound=%d' % (l, c, d if d < (1 << 40) else 'nar-mismatch', bd))
     print('SUMMARY15 n=%d over=%d maxulp=%s' % (n, over, ' '.join('%s:%d' % kv for kv in sorted(mx.items()))))
 if __name__ == '__main__':
     main()
